@@ -1212,6 +1212,11 @@ func (fs *FS) markGone(dir *Inode, name string) {
 		// is the entry (dir,name) on h's path?
 		for x := h; x != nil && x.parent != nil; x = x.parent {
 			if x.gone {
+				// below an entry that is already gone (possible only when the
+				// backend removes non-empty directories)
+				if x != h {
+					h.gone = true
+				}
 				break
 			}
 			if x.name == name && x.parent.resolve() == dir {
@@ -1269,6 +1274,13 @@ func (h *Handle) RenameAt(oldName string, newDir p9.File, newName string) error 
 		}
 	}
 	if old := dst.kids.Get(newName); old != nil {
+		// onto a directory that contains the source: nonsense for any backend
+		for x := h; x != nil; x = x.parent {
+			if x.node() == old {
+				c.Err = linux.EINVAL
+				return c.Err
+			}
+		}
 		if old.Kind == Dir && len(old.names) > 0 && !fs.RecursiveRemove {
 			c.Err = linux.ENOTEMPTY
 			return c.Err
